@@ -12,6 +12,7 @@ import (
 
 //verif:harness id=C06 tier=quick,thorough witness=end,decoded bounds="url-encoded bodies against a composed object schema: {type: object, properties {k: string}} with allOf / anyOf / oneOf of two object branches declaring a (integer) and b (boolean), or both declaring a (integer) (the same field seen twice is one field); body = any subset of k / a / b with one symbolic byte over [0-9a-z-] as the text of a: the decoded object has exactly the fields that were sent, typed by the branch that declares them; through ValidateRequestBody the request passes iff a's text is an integer (allOf) "
 func verifH_C06_form_compositions() {
+	verifMapOrder() // map iteration order is unspecified: ascending and descending key order
 	prim := func(t string) *openapi3.SchemaRef {
 		return &openapi3.SchemaRef{Value: &openapi3.Schema{Type: &openapi3.Types{t}}}
 	}
